@@ -28,7 +28,9 @@ RULE = ('A case is (packets, mode, cipher, cuts): 0-12 (quick) / 0-40 '
         'Connection object (play sessions with their own compression / '
         'cipher setting and five ways of ending, status queries in between, '
         'reconnect directly or after disconnect): every session starts from '
-        'a clean framing state. Non-trivial: >= 2 packets and '
+        'a clean framing state. Bursts: 1-320 frames sent at once to a real '
+        'Connection (beyond the 50-packets-per-pass limit of its loop); an '
+        'early listener sees each once, in order. Non-trivial: >= 2 packets and '
         'one of {payload within +-1 of threshold, unknown id followed by a '
         'known one, a cut inside a length prefix or compressed body, cipher '
         'on}; distinct by full case fingerprint.')
